@@ -71,16 +71,25 @@ theorem cover_step {s : Script} {c : Cfg} (hi : Inv s c) (hc : Cover c) (t : Nat
     apply keep
     · exact step_Y_other s t c (by simp [hx])
     · unfold step; simp only [hx]; split
-      · split <;> simp [setTh]
+      · simp [setTh]
       · split <;> simp [setTh]
     · intro b' n' hb'
       simp [hx, Pc.ticket] at hb'
       unfold step; simp only [hx]
       split
-      · split <;> simp [setTh, Pc.ticket, hb']
+      · simp [setTh, Pc.ticket, hb']
       · split
         · omega
         · simp [setTh, Pc.ticket, hb']
+  | ent r b =>
+    have hme : (c.th t).pc.ticket = some (b, r.len) := by simp [hx, Pc.ticket]
+    apply keep
+    · exact step_Y_other s t c (by simp [hx])
+    · unfold step; simp only [hx, hC, Bool.false_eq_true, ↓reduceIte]; split <;> simp [setTh]
+    · intro b' n' hb'
+      simp [hx, Pc.ticket] at hb'
+      unfold step; simp only [hx, hC, Bool.false_eq_true, ↓reduceIte]
+      split <;> simp [setTh, Pc.ticket, hb']
   | cs r b acc =>
     apply keep
     · exact step_Y_other s t c (by simp [hx])
@@ -184,7 +193,7 @@ theorem deadlock_free {s : Script} {c : Cfg} (hi : Inv s c) (hc : Cover c)
   · exact ⟨t0, hb, hsp⟩
 
 /-- all protocol invariants along any schedule, including `Cover` -/
-theorem cover_run {s : Script} (hf : Fused s) (σ : List Nat) {c : Cfg} (hi : Inv s c) (hc : Cover c) (hd : DeadC c)
+theorem cover_run {s : Script} (σ : List Nat) {c : Cfg} (hi : Inv s c) (hc : Cover c) (hd : DeadC c)
     (hW : (run s σ c).R < W) : Inv s (run s σ c) ∧ Cover (run s σ c) ∧ DeadC (run s σ c) := by
   induction σ generalizing c with
   | nil => exact ⟨hi, hc, hd⟩
@@ -192,7 +201,7 @@ theorem cover_run {s : Script} (hf : Fused s) (σ : List Nat) {c : Cfg} (hi : In
     simp only [run] at hW ⊢
     have h1 : (step s t c).R < W := Nat.lt_of_le_of_lt (run_R_mono s ts _) hW
     have h0 : c.R < W := Nat.lt_of_le_of_lt (step_R_mono s t c) h1
-    exact ih (step_inv hf hi h0 t) (cover_step hi hc t) (deadC_step s hd t) hW
+    exact ih (step_inv hi h0 t) (cover_step hi hc t) (deadC_step s hd t) hW
 
 /-- a spin iteration changes nothing but the spinner's own position in its two-load loop -/
 theorem spin_step_harmless (s : Script) (t : Nat) (c : Cfg) (h : Spinning c t) :
